@@ -168,6 +168,16 @@ func New(s *choice.Stream, cfg Config) *Sim {
 	sim := &Sim{S: s, Cfg: cfg, done: make(chan struct{}),
 		mus: map[unsafe.Pointer]*muState{}, rws: map[unsafe.Pointer]*rwState{}, wgs: map[unsafe.Pointer]*wgState{}, chans: map[unsafe.Pointer]*chanState{}}
 	sim.rep.Counters = map[string]int64{}
+	if cfg.Race && len(unmodelled) > 0 {
+		// The instrumented packages use synchronisation this runtime does not
+		// model (sync/atomic, sync.Cond, sync.Map, timers): order established
+		// through it would be invisible and accesses ordered by it would be
+		// reported as races. The race oracle is switched off for the run
+		// (result, panic and deadlock oracles are unaffected).
+		sim.Cfg.Race = false
+		cfg.Race = false
+		sim.rep.Counters["race_oracle_degraded_unmodelled_synchronisation"] = 1
+	}
 	if cfg.Race {
 		sim.race = newRaceState()
 	}
